@@ -181,22 +181,18 @@ def build(pg: dict, cls_name: str | None = None, rng=None, idmap=None, rewrite=F
                 d = sem.rewrite_desc(d, rng)
             g.set_bond_stereo(mk_desc(d))
     if cls_name == "StereoCondensedReactionGraph":
-        for v in ach:
-            kw = {}
-            for s, d in v.items():
-                if rewrite:
-                    d = sem.rewrite_desc(d, rng)
-                kw[s.lower()] = mk_desc(d)
-            if kw:
-                g.set_atom_stereo_change(**kw)
-        for v in bch:
-            kw = {}
-            for s, d in v.items():
-                if rewrite:
-                    d = sem.rewrite_desc(d, rng)
-                kw[s.lower()] = mk_desc(d)
-            if kw:
-                g.set_bond_stereo_change(**kw)
+        for entries, setter in ((ach, "set_atom_stereo_change"), (bch, "set_bond_stereo_change")):
+            for v in entries:
+                kw, made = {}, {}
+                for s, d in v.items():
+                    if rewrite:
+                        d = sem.rewrite_desc(d, rng)
+                    # equal descriptors in several slots are handed over as ONE object (broken=t, fleeting=t)
+                    if d not in made:
+                        made[d] = mk_desc(d)
+                    kw[s.lower()] = made[d]
+                if kw:
+                    getattr(g, setter)(**kw)
     return g
 
 
